@@ -238,6 +238,20 @@ theorem C17_dedup_keeps_distinct (ds : List (CharDef V P)) (h : (ds.map (·.typ)
     keptDefs ds = ds :=
   keptDefs_of_nodup ds h
 
+/-- **De-duplication keeps the first of each type**, for any list of definitions handed to
+    `add_characteristic` — in one call or spread over several calls (the model de-duplicates
+    sequentially, which is what the per-characteristic scan of the code amounts to): the kept
+    types are pairwise distinct (so `add_service` gives every listed characteristic its own iid),
+    the kept definitions are a sublist of the given ones in their order, and for every type the
+    kept definition is the first of that type. -/
+theorem C17_dedup_keeps_first (ds : List (CharDef V P)) :
+    ((keptDefs ds).map (·.typ)).Nodup ∧ (keptDefs ds).Sublist ds ∧
+    ∀ t, (keptDefs ds).find? (fun d => d.typ == t) = ds.find? (fun d => d.typ == t) := by
+  obtain ⟨h1, ⟨rest, h2, h3⟩, h4⟩ := foldl_addCharDef_spec ds [] (by simp)
+  refine ⟨h1, ?_, fun t => by simpa [keptDefs] using h4 t⟩
+  have : keptDefs ds = rest := by simpa [keptDefs] using h2
+  rw [this]; exact h3
+
 /-- Within every shipped service the required characteristic types are pairwise distinct
     (checked by the kernel on the table regenerated from services.json / characteristics.json). -/
 theorem C17_shipped_required_distinct :
@@ -292,7 +306,7 @@ example : ((Db.init true [info] : Db Unit Unit).run
       = [(some 1, some 1), (some 1, some 2), (some 1, some 3), (some 1, some 4),
          (some 2, some 1), (some 2, some 2), (some 2, some 3), (some 2, some 4),
          (some 2, some 5), (some 2, some 8), (some 2, some 7)] := by decide
-/-- the duplicate type "25" in `bulb` is dropped by the de-duplication: 2 characteristics -/
+/-- the duplicate type "25" in `bulb` (third in one call) is dropped by the de-duplication: 2 characteristics -/
 example : (mkService 0 bulb).chars.length = 2 := by decide
 example : ((List.range 6).map (fun n => findAid (List.range' 2 n))) = [some 2, some 3, some 4, some 5, some 6, some 8] := by
   decide
